@@ -162,3 +162,34 @@ def build_randseam():
         if os.path.isdir(tmp):
             shutil.rmtree(tmp, ignore_errors=True)
     return exe
+
+
+PCGSEAM = os.path.join(VERIF, "vt", "shim", "pcgseam.c")
+
+
+def build_pcgseam():
+    """Executable that runs REPO's vendored generator, seeded as random.c seeds it, for ranges of seeds."""
+    h = hashlib.sha1()
+    srcs = [PCGSEAM, os.path.join(SRC, "random.c"), os.path.join(SRC, "pcg_basic.c")]
+    for fn in srcs + [os.path.join(SRC, "random.h"), os.path.join(SRC, "pcg_basic.h")]:
+        with open(fn, "rb") as f:
+            h.update(f.read())
+    d = os.path.join(CACHE, "cbuild", "pcgseam-%s" % h.hexdigest()[:16])
+    exe = os.path.join(d, "pcgseam")
+    if os.path.exists(exe):
+        return exe
+    os.makedirs(os.path.dirname(d), exist_ok=True)
+    tmp = tempfile.mkdtemp(prefix="vtbuild-", dir=os.path.dirname(d))
+    try:
+        cmd = ["gcc", "-O2", "-I", SRC] + srcs + ["-o", os.path.join(tmp, "pcgseam"), "-lm"]
+        p = subprocess.run(cmd, capture_output=True, text=True)
+        if p.returncode != 0:
+            raise BuildError("building pcgseam failed:\n%s\n%s" % (" ".join(cmd), p.stderr[-4000:]))
+        try:
+            os.rename(tmp, d)
+        except OSError:
+            pass
+    finally:
+        if os.path.isdir(tmp):
+            shutil.rmtree(tmp, ignore_errors=True)
+    return exe
